@@ -86,7 +86,7 @@ elements, maps by their key-sorted entry lists; values of different kinds by the
 source's `type_order` table. -/
 theorem C15_cmp_structure :
     (∀ xs ys, Value.cmp (.arr xs) (.arr ys) = lexCmp Value.cmp xs ys) ∧
-    (∀ x y, Value.cmp (.map x) (.map y) = lexCmp entryCmp (sortEntries x) (sortEntries y)) ∧
+    (∀ x y, Value.cmp (.map x) (.map y) = lexCmp entryCmp (sortEntriesK x) (sortEntriesK y)) ∧
     (∀ a b, a.typeOrder ≠ b.typeOrder → Value.cmp a b = cmpNat a.typeOrder b.typeOrder) :=
   ⟨cmp_arr, cmp_map, cmp_cross⟩
 
@@ -162,8 +162,8 @@ the hasher, `m.attr` is the entry stored under a string key with that text, as f
 `get(&Key::Str(attr))`. -/
 theorem C15_scan_eq_hash_lookup (H : List HashTok → Nat) (m m' : List (Key × Value)) (attr : List Char)
     (nd : NoDupKeys m) (p : m.Perm m') :
-    Value.getAttr H (.map m') attr = Map.get (.str attr) m := by
-  simp only [Value.getAttr, Map.scanAttr_eq_get, Map.hashGet_eq_get, ite_self]
+    Value.getAttrH H (.map m') attr = Map.get (.str attr) m := by
+  simp only [Value.getAttrH, Map.scanAttr_eq_get, Map.hashGet_eq_get, ite_self]
   exact Map.get_perm nd p _
 
 /-- **C15 (all lookup routes read the same entry).** `m[k]`, `k in m`, `m is containing(k)` and
@@ -171,19 +171,19 @@ theorem C15_scan_eq_hash_lookup (H : List HashTok → Nat) (m m' : List (Key × 
 valid key kind is an error for `m[k]` and "absent" for the membership tests. -/
 theorem C15_lookup_routes (H : List HashTok → Nat) (m : List (Key × Value)) (v : Value) (s : List Char)
     (d : Option Value) :
-    (∀ k, v.asKey = some k →
+    (∀ k, v.asKeyK = some k →
       Value.getItemMap H m v = .ok ((Map.get k.toRepr m).getD .undef) ∧
-      Value.contains H (.map m) v = some (Map.get k.toRepr m).isSome ∧
+      Value.containsH H (.map m) v = some (Map.get k.toRepr m).isSome ∧
       Value.isContaining H (.map m) v = .ok (Map.get k.toRepr m).isSome) ∧
-    (v.asKey = Option.none →
-      Value.getItemMap H m v = .badKey ∧ Value.contains H (.map m) v = some false ∧
+    (v.asKeyK = Option.none →
+      Value.getItemMap H m v = .badKey ∧ Value.containsH H (.map m) v = some false ∧
       Value.isContaining H (.map m) v = .ok false) ∧
     Value.getFilter H m s d = (match Map.get (.str s) m with | some x => some x | Option.none => d) := by
   refine ⟨?_, ?_, ?_⟩
   · intro k hk
-    simp [Value.getItemMap, Value.contains, Value.isContaining, hk, Map.hashGet_eq_get]
+    simp [Value.getItemMap, Value.containsH, Value.isContaining, hk, Map.hashGet_eq_get]
   · intro hk
-    simp [Value.getItemMap, Value.contains, Value.isContaining, hk]
+    simp [Value.getItemMap, Value.containsH, Value.isContaining, hk]
   · simp only [Value.getFilter, Map.hashGet_eq_get]; cases Map.get (.str s) m <;> rfl
 
 /-- **C15 (found exactly when an equal key was inserted).** For a map built by any sequence of
@@ -201,7 +201,7 @@ another width, the same text owned or borrowed — find the same entry; and two 
 are valid keys find the same entry whenever they are `==` as values. -/
 theorem C15_lookup_representation_independent (m : List (Key × Value)) :
     (∀ q q', KeyRepr.eq q q' = true → Map.get q m = Map.get q' m) ∧
-    (∀ v v' k k', v.WF → v'.WF → v.asKey = some k → v'.asKey = some k' → eqV v v' = true →
+    (∀ v v' k k', v.WF → v'.WF → v.asKeyK = some k → v'.asKeyK = some k' → eqV v v' = true →
       Map.get k.toRepr m = Map.get k'.toRepr m) := by
   refine ⟨fun q q' h => Map.get_congr h m, ?_⟩
   intro v v' k k' wv wv' hk hk' he
@@ -217,7 +217,7 @@ example : Value.cmp (.arr [.u64 1, .str false ['x']]) (.arr [.u64 1, .u64 2]) = 
     Value.cmp (.arr [.u64 1, .u64 2]) (.arr [.u64 1, .u64 3]) = .lt := by decide
 example : Map.get (.i128 7) (Map.ofInserts [(.u64 7, Value.str false ['x']), (.i64 7, .none)]) = some .none := by
   rfl
-example : Value.getAttr (fun _ => 0) (.map [(.str ['a'], .u64 1), (.u64 2, .none)]) ['a'] = some (.u64 1) := by
+example : Value.getAttrH (fun _ => 0) (.map [(.str ['a'], .u64 1), (.u64 2, .none)]) ['a'] = some (.u64 1) := by
   rfl
 example : Value.WF (.map [(.i64 (-3), .arr [.u64 1, .f64 .nan]), (.str ['k'], .none)]) := by
   refine .map _ ?_ ?_ ?_
